@@ -120,6 +120,43 @@ PROPS["C06"] = {
     "thorough": {"scale": 10, "shards": 16, "timeout": 1500},
 }
 
+PROPS["C07"] = {
+    "pkg": "c07",
+    "technique": "model-based property testing of Record.UnmarshalText against a field-grammar reference parser (netip.ParseAddr + the C03 name model), error classification and MarshalText round trip; native fuzzing in the thorough tier",
+    "level_text": ("Generated-input search against a reference parser written from the statement: cut at '#', split on space/tab runs, classify as "
+                   "ErrEmptyLine / ErrNoHosts / netip's address error / *AddrError for the first bad name with exactly the earlier names retained / accepted "
+                   "with exactly the address and names in order; every accepted record must re-parse equal after MarshalText; the input bytes and Source "
+                   "must be left alone. Exploration."),
+    "level_note": "Trusted: netip.ParseAddr and the C03 domain-name model (C03 compares that model with ValidateDomainName separately).",
+    "rule": ("Lines from a hosts(5) grammar: optional leading blank, address-ish field (valid v4/v6/zone/4in6, near-misses from the IP grammar), 0-5 names "
+             "(valid, IDN, invalid, over-long labels, bad UTF-8) separated by space/tab runs or by look-alike separators (VT, NBSP, FF), optional trailing "
+             "blank, optional comment, optional CR, 0-2 edits; byte soup; repository test literals. Non-trivial: at least two fields after comment removal "
+             "(the address parser is reached); distinct = distinct line."),
+    "assumptions": [],
+    "expect_classes": {"line:ok": 0.1, "bad-name-after-good-names": 0.02, "with-comment": 0.05, "with-CR": 0.02, "ok:zone-or-4in6": 0.01},
+    "quick": {"scale": 3, "shards": 1, "timeout": 300},
+    "thorough": {"scale": 10, "shards": 16, "timeout": 1500, "fuzz": [("FuzzRecord", 60)]},
+}
+
+PROPS["C08"] = {
+    "pkg": "c08",
+    "technique": "property-based testing with scripted fragmenting readers (metamorphic: every fragmentation, buffer and destination kind gives the per-line oracle's call sequence) and a model-based state machine for DefaultStorage; native fuzzing in the thorough tier",
+    "level_text": ("Generated-input search: multi-line files (LF/CRLF, missing final newline, long lines, blank and comment lines) are delivered through "
+                   "scripted readers (1-byte reads, (0,nil) reads, data+EOF, large reads) into a FuncSet, a recording HandleSet or a DefaultStorage with "
+                   "different scan buffers; the observed sequence of Add / HandleInvalid calls (source name, 1-based line number, message, line bytes) or the "
+                   "joined error must equal the per-line oracle. DefaultStorage histories are compared with a model after every Add (ByName in three spellings, "
+                   "ByAddr, RangeNames, RangeAddrs, index agreement, Equal against a twin without the nameless records). Exploration."),
+    "level_note": "Trusted: Record.UnmarshalText as the per-line oracle (decided separately by C07); lines above bufio's 64 KiB token limit and more than 20 consecutive empty reads are outside the generated domain.",
+    "rule": ("Parse: 0-40 generated lines x terminators x reader chunk script x buffer capacity x destination kind; non-trivial = at least two lines with "
+             "at least one accepted and one rejected, delivered in at least three reads; distinct = (bytes, script, buffer, destination). Storage: histories "
+             "of 0-14 Add calls over 7 addresses (v4, v6, zoned, 4in6, zero) and 14 names in mixed ASCII case (0-4 names per record, so nameless records "
+             "occur); non-trivial = some name added twice for an address or under two addresses."),
+    "assumptions": ["name case-insensitivity is asserted for ASCII letters only; non-ASCII names are exact-match tokens"],
+    "expect_classes": {"parse:nontrivial": 0.1, "storage:nameless-record": 0.05},
+    "quick": {"scale": 1, "shards": 1, "timeout": 300},
+    "thorough": {"scale": 10, "shards": 16, "timeout": 1500, "fuzz": [("FuzzParse", 60)]},
+}
+
 ALL_IDS = ["C%02d" % i for i in range(1, 21)]
 NOT_APPLICABLE = [
     {"property_id": pid, "reason": "check not built yet in this revision of the harness (work in progress; see DESIGN.md section 9)"}
